@@ -383,10 +383,17 @@ impl Run {
                 let which = if tt == t { "same-table" } else { "other-table" };
                 // the strongest restart the table has seen (each alone suffices to reuse fragment ids)
                 let reuse = ["overwrite", "recreate", "restore"].iter().find(|r| self.reuse[tt].contains(r)).copied().unwrap_or("none");
+                // root-cause class: row-id observables of a stable-row-id table that has seen a fragment-id
+                // restarting op = stale `row_id_sequence/{fragment_id}` cache entry
+                let key = if obs == "rowid-observables" && self.cfg.stable && reuse != "none" && tt == t {
+                    "rowid-observables/stable-row-ids/stale-row-id-sequence-after-fragment-id-reuse".to_string()
+                } else {
+                    format!("{obs}/{tag}/frag-id-restart={reuse}/{which}")
+                };
                 return Some((
-                    format!("{obs}/{tag}/frag-id-restart={reuse}/{which}"),
+                    key,
                     format!(
-                        "after {op:?} table {tt} [{}]: {d}: shared session = {} ; fresh sessions = {} (all differing observables: {diffs:?})",
+                        "after {op:?} table {tt} [{}; fragment-id restarting ops seen: {reuse}]: {d}: shared session = {} ; fresh sessions = {} (all differing observables: {diffs:?})",
                         self.cfg.label(),
                         cut(&ma.get(d).cloned().unwrap_or(Value::Null).to_string()),
                         cut(&mb.get(d).cloned().unwrap_or(Value::Null).to_string())
